@@ -160,4 +160,11 @@ def r4_only_symbol_not_defined_defers(ctx: Ctx) -> None:
     ctx.floor("handlers", 1)
 
 
-RULES = [r1_arguments_in_caller_scope, r2_positional_binding, r3_per_application_scope, r4_only_symbol_not_defined_defers]
+
+def rb_binding_agreement(ctx: Ctx) -> None:
+    from ..ownership import binding_agreement
+
+    binding_agreement(ctx)
+
+
+RULES = [r1_arguments_in_caller_scope, r2_positional_binding, r3_per_application_scope, r4_only_symbol_not_defined_defers, rb_binding_agreement]
